@@ -381,7 +381,7 @@ def field_offsets(t, v):
 def wf_value(t, v):
     """in-range ints, enum membership, array limits, bytes lengths, sizer range"""
     if isinstance(t, Int):
-        return isinstance(v, int) and not isinstance(v, bool) and t.lo() <= v <= t.hi()
+        return isinstance(v, int) and t.lo() <= v <= t.hi()      # bool is an int (True == 1): accepted like CPython does
     if isinstance(t, Float):
         return isinstance(v, (int, float))
     if isinstance(t, Enum):
